@@ -14,7 +14,7 @@ pub fn property() -> Property {
     Property {
         id: "C11",
         level: "exploration",
-        rule: "(1) hosts = ALL strings of 1..3 labels over {a,b,ab,ba,xa} + IPv4/bracketed IPv6 literals + mixed-case spellings; no-proxy lists = ALL lists of <= 2 entries over {'', a, .a, b.a, A, ' a ', a., xa, an IPv4 literal, a bracketed IPv6 literal, ' .b'}; x scheme x {both proxies, http only, disabled flag}: exhaustive, once through ProxySettingsBuilder (entries verbatim) and once through the NO_PROXY environment variable (entries normalised as the statement says). (2) environment: assignments of the 8 variables {http,https,all,no}_proxy x lower/upper case over 7 values each {unset, empty, blank, valid http URL, valid https URL, socks5 URL, garbage} - all 7^8 in thorough, 20 000 sampled in quick; each shard process owns its environment; while each environment is in force a default-settings request (free function / fresh Session alternating) is sent as well and the address it dials must be an acceptable decision for THAT environment (thousands of different environments per process: stale process-wide state shows). (3) end-to-end send() through hook H1: the address dialled agrees with the decision. Oracle: reference decision function and environment reader written from the statement, returning the SET of acceptable outcomes (singleton except in documented gray cases). Non-trivial: a proxy is configured for the scheme; distinct = hash(configuration, host).",
+        rule: "(1) hosts = ALL strings of 1..3 labels over {a,b,ab,ba,xa} + IPv4/bracketed IPv6 literals + mixed-case spellings + four names written with a trailing dot; no-proxy lists = ALL lists of <= 2 entries over {'', a, .a, b.a, A, ' a ', a., xa, an IPv4 literal, a bracketed IPv6 literal, ' .b'}; x scheme x {both proxies, http only, disabled flag}: exhaustive, once through ProxySettingsBuilder (entries verbatim) and once through the NO_PROXY environment variable (entries normalised as the statement says). (2) environment: assignments of the 8 variables {http,https,all,no}_proxy x lower/upper case over 7 values each {unset, empty, blank, valid http URL, valid https URL, socks5 URL, garbage} - all 7^8 in thorough, 20 000 sampled in quick; each shard process owns its environment; while each environment is in force a default-settings request (free function / fresh Session alternating) is sent as well and the address it dials must be an acceptable decision for THAT environment (thousands of different environments per process: stale process-wide state shows). (3) end-to-end send() through hook H1: the address dialled agrees with the decision. Oracle: reference decision function and environment reader written from the statement, returning the SET of acceptable outcomes (singleton except in documented gray cases). Non-trivial: a proxy is configured for the scheme; distinct = hash(configuration, host).",
         assumptions: &["gray (executed, not judged): builder entries with blanks / leading or trailing dots / wildcards, sub-'domains' of IP literals, a blank or invalid lower-case variable next to a valid upper-case one, padded or listed '*' in NO_PROXY"],
         min_nontrivial: |t| t.pick(20_000, 200_000),
         gens,
@@ -37,7 +37,8 @@ fn hosts() -> Vec<String> {
             }
         }
     }
-    v.extend(["192.0.2.7", "192.0.2.77", "[::1]", "[2001:db8::1]", "A", "B.A", "Xa", "b.A", "AB.B.A"].iter().map(|s| s.to_string()));
+    // (the last four are written with the root label's trailing dot)
+    v.extend(["192.0.2.7", "192.0.2.77", "[::1]", "[2001:db8::1]", "A", "B.A", "Xa", "b.A", "AB.B.A", "a.", "b.a.", "xa.", "ba.b."].iter().map(|s| s.to_string()));
     v
 }
 
@@ -63,6 +64,7 @@ fn gens(tier: Tier) -> Vec<Gen> {
         Gen { name: "hostlist-builder", count: hostlist_count(), exhaustive: true, run: run_hostlist_builder },
         Gen { name: "hostlist-env", count: hostlist_count(), exhaustive: true, run: run_hostlist_env },
         Gen { name: "env", count: tier.pick(20_000, 7u64.pow(8)), exhaustive: tier == Tier::Thorough, run: run_env },
+        Gen { name: "other-schemes", count: (5 * 3 * 2 * 2) as u64, exhaustive: true, run: run_other_schemes },
         Gen { name: "env-non-unicode", count: (4 * 4) as u64, exhaustive: true, run: run_env_non_unicode },
         Gen { name: "end-to-end", count: tier.pick(200, 2_000), exhaustive: false, run: run_e2e },
         Gen { name: "end-to-end-redirect", count: (4 * 4 * 3) as u64, exhaustive: true, run: run_e2e_redirect },
@@ -70,6 +72,23 @@ fn gens(tier: Tier) -> Vec<Gen> {
 }
 
 const PROXY_VARS: [&str; 8] = ["http_proxy", "HTTP_PROXY", "https_proxy", "HTTPS_PROXY", "all_proxy", "ALL_PROXY", "no_proxy", "NO_PROXY"];
+
+/// hosts written with a trailing dot: whether `a.` equals the entry `a` is not fixed by the
+/// statement, so the decision is judged only where it is the same with and without the dot
+/// (empty and unrelated entries: the proxy is used either way)
+fn decide_dot(cfg: &ProxyCfg, scheme: &str, host: &str) -> Option<Decision> {
+    let d = proxy::decide(cfg, scheme, host);
+    match host.strip_suffix('.') {
+        None => d,
+        Some(bare) => {
+            if d == proxy::decide(cfg, scheme, bare) {
+                d
+            } else {
+                None
+            }
+        }
+    }
+}
 
 fn clear_env() {
     for v in PROXY_VARS {
@@ -156,7 +175,7 @@ fn run_hostlist_builder(ctx: &mut Ctx, _rng: &mut Rng, index: u64) {
     let got = settings.for_url(&url).cloned();
     let entries: Vec<String> = list.iter().map(|s| s.to_string()).collect();
     let cfg = ProxyCfg { http: Some("http://proxy-h.test:3128".into()), https: if mode == 0 { Some("http://proxy-s.test:3129".into()) } else { None }, disabled: false, no_proxy: entries.clone() };
-    let want = if list.iter().any(|e| proxy::entry_is_gray(e)) { None } else { proxy::decide(&cfg, scheme, url.host_str().unwrap()) };
+    let want = if list.iter().any(|e| proxy::entry_is_gray(e)) { None } else { decide_dot(&cfg, scheme, url.host_str().unwrap()) };
     record_relations(ctx, url.host_str().unwrap(), &entries);
     let descr = || format!("builder: url={url} no_proxy={list:?} https_proxy_configured={}", mode == 0);
     judge(ctx, got.as_ref(), want, &descr, hint(url.host_str().unwrap(), &entries));
@@ -192,7 +211,7 @@ fn run_hostlist_env(ctx: &mut Ctx, _rng: &mut Rng, index: u64) {
                 None
             } else {
                 let cfg = ProxyCfg { http: Some("http://proxy-h.test:3128".into()), https: if mode != 1 { Some("http://proxy-s.test:3129".into()) } else { None }, disabled, no_proxy: entries };
-                proxy::decide(&cfg, scheme, url.host_str().unwrap())
+                decide_dot(&cfg, scheme, url.host_str().unwrap())
             }
         }
     };
@@ -485,4 +504,36 @@ fn run_env_non_unicode(ctx: &mut Ctx, _rng: &mut Rng, index: u64) {
         }
     }
     ctx.nontrivial(descr.as_bytes());
+}
+
+/// a proxy is used only when one is configured for the URL's scheme: there is none for ftp, ws, ...
+fn run_other_schemes(ctx: &mut Ctx, _rng: &mut Rng, index: u64) {
+    let scheme = ["ftp", "ws", "wss", "gopher", "foo"][(index % 5) as usize];
+    let host = ["zzz.test", "a", "192.0.2.9"][((index / 5) % 3) as usize];
+    let both = (index / 15) % 2 == 1;
+    let via_env = (index / 30) % 2 == 1;
+    clear_env();
+    let settings = if via_env {
+        std::env::set_var("http_proxy", "http://proxy-h.test:3128");
+        if both {
+            std::env::set_var("HTTPS_PROXY", "http://proxy-s.test:3129");
+            std::env::set_var("all_proxy", "http://proxy-a.test:3130");
+        }
+        let s = ProxySettings::from_env();
+        clear_env();
+        s
+    } else {
+        let mut b = ProxySettings::builder().http_proxy(Url::parse("http://proxy-h.test:3128").unwrap());
+        if both {
+            b = b.https_proxy(Url::parse("http://proxy-s.test:3129").unwrap());
+        }
+        b.build()
+    };
+    let url = Url::parse(&format!("{scheme}://{host}/x")).unwrap();
+    let got = settings.for_url(&url).cloned();
+    ctx.count("other_scheme_cases", 1);
+    if let Some(p) = got {
+        ctx.violation("proxy-used-for-a-scheme-without-proxy", format!("for_url({url}) = {p} although no proxy is configured for scheme {scheme} (http{} configured, via {})", if both { " and https/all" } else { " only" }, if via_env { "environment" } else { "builder" }));
+    }
+    ctx.nontrivial(format!("os{index}").as_bytes());
 }
